@@ -195,6 +195,14 @@ pub fn run_check_impl(args: &CheckArgs, cli: &Cli) -> crate::Result<i32> {
     // 4. Build check context with dependencies
     let warn_threshold = args.warn_threshold.unwrap_or(config.content.warn_threshold);
     let mut exclude_patterns = config.scanner.exclude.clone();
+    // `--exclude` globs never passed the configuration gate, and with `--files` no scanner ever
+    // compiles them: an invalid one is a usage error in every mode.
+    for pattern in &args.exclude {
+        globset::Glob::new(pattern).map_err(|e| crate::SlocGuardError::InvalidPattern {
+            pattern: pattern.clone(),
+            source: e,
+        })?;
+    }
     exclude_patterns.extend(args.exclude.clone());
     let use_gitignore = config.scanner.gitignore && !args.no_gitignore;
     let ctx = CheckContext::from_config(&config, warn_threshold, exclude_patterns, use_gitignore)?;
